@@ -1099,9 +1099,10 @@ def correspond(run, pairs, what_violation, what_prop, judge=None):
         cases.append(case_term(family, fds, call, obs, log))
         meta.append((family, call, obs, log))
     bad = run.coq_mismatches(HEADER, "case", "case_ok", cases, shard=250)
-    if len(bad) > 40:
-        run.note("%d disagreeing cases; the first 40 are examined" % len(bad))
-    for i in bad[:40]:
+    cap = 12 if judge is not None else 40
+    if len(bad) > cap:
+        run.note("%d disagreeing cases; the first %d are examined" % (len(bad), cap))
+    for i in bad[:cap]:
         family, call, obs, log = meta[i]
         sp = spec_resolve(family, call)
         data = {"family": family, "call": call, "observed": obs, "log": log,
